@@ -34,6 +34,10 @@ struct SexprOpts
 {
     bool sym_types = true;   // print the declared type of the symbol an identifier is bound to
     bool expr_types = false;  // print the kind of every node's type (after type checking)
+    bool dot_members = true;  // decorate DOT nodes with the selected member's name and type
+    // reference substitution (C19): identifiers bound to *subst_sym are rendered as *subst_text
+    const UTAP::symbol_t* subst_sym = nullptr;
+    const std::string* subst_text = nullptr;
 };
 
 std::string type_sexpr(const UTAP::type_t& t, int depth = 0);
